@@ -8,26 +8,26 @@ CHECKS = {
  "C08": dict(cat="exploration", tech="panic/fatal-error monitor over child processes, logical step counter (Go coverage counters) on scaled families, error-reporting consistency monitor",
    text="Every entry point on 10^5-10^6 hostile byte inputs, cooperating module file sets and degenerate protobuf models in child processes (panics recovered, fatal errors attributed through a logged index); logical work of single calls measured as executed basic blocks on ~100 (quick) / ~700 (thorough) scaled families and random mutants against a quadratic budget, a sustained growth-exponent bound and two hang criteria; parser error listener vs. returned error on every DSL input.",
    note="Work bound holds for the families and sizes measured only; 'never hangs' is decided as 'no call exceeded 50x its quadratic step budget'; K1, K5 recognised by family.", ref="5/C08"),
- "C13": dict(cat="exploration", tech="input-snapshot monitor, Go race detector on barrier-started mixed workloads with sequential baseline, cold-vs-warm subprocess histories",
-   text="Deep snapshots around every model/file-slice entry point; object-reuse sequences (one builder value, one model edited in place, earlier errors re-inspected, failing calls in between) compared with fresh objects; go test -race over rounds of 12-16 goroutines on shared inputs (10 mixes incl. shared builder, non-module files, renders after failed calls) with result comparison and overlap counting; per-probe result hashes equal across cold, warmed, reversed, look-alike and history-prefixed processes.",
+ "C13": dict(cat="exploration", tech="input-snapshot monitor, Go race detector on barrier-started mixed workloads with sequential baseline, cold-vs-warm subprocess histories, cold-start race processes",
+   text="Deep snapshots around every model/file-slice entry point; object-reuse sequences (one builder value, one model edited in place, earlier errors re-inspected, failing calls in between) compared with fresh objects; go test -race over rounds of 12-16 goroutines on shared inputs (10 mixes incl. shared builder, non-module files, renders after failed calls) with result comparison and overlap counting; one fresh -race process per entry-point family whose first calls are concurrent (lazy initialisation); per-probe result hashes equal across cold, warmed, reversed, look-alike and history-prefixed processes.",
    note="The race detector only sees interleavings that happened (overlapping pairs are reported in evidence); histories are sampled.", ref="5/C13"),
  "C15": dict(cat="exploration", tech="path-safety predicate + must-accept/must-reject classes over exhaustive and styled manifests with writer-recorded positions",
-   text="Every string over the 15-letter alphabet up to length 5 (quick) / 6 (thorough), with and without suffix, plus styled multi-entry manifests; safety of every returned path, error counts, verbatim/order, and positions are checked.",
+   text="Every string over the 15-letter alphabet up to length 5 (quick) / 6 (thorough), with and without suffix, plus styled multi-entry manifests and manifests whose contents / schema / entry is an alias or arrives through a merge key; safety of every returned path, error counts, verbatim/order, and positions are checked.",
    note="Trusted: own percent decoder and YAML writer; entries with a '../' substring but no '..' segment may be answered either way (DESIGN 5/C15).", ref="5/C15"),
  "C17": dict(cat="exploration", tech="reference-structure monitor (plain mode, edges flipped), reversal / DOT / path-duality monitors, cross-process DOT comparison",
-   text="Plain graph compared with the reference structure; Reversed() must flip lines and direction only; DOT stable across double reversal, rebuilds and fresh processes; label lookup and path queries against reference reachability for all label pairs; cycle flags through a hook.",
+   text="Plain graph compared with the reference structure; Reversed() must flip lines and direction only; DOT stable across double reversal, rebuilds and fresh processes; label lookup and path queries against reference reachability for all label pairs; cycle flags through a hook, in both directions (a reported compile-time cycle needs a cycle of computed usersets only).",
    note="Operator nodes are matched through gonum node ids (creation order); cycle queries only on models with <= 12 nodes on cycles.", ref="5/C17"),
  "C18": dict(cat="exploration", tech="decomposition-predicate monitor over exhaustive class-representative strings, boundary lengths and random Unicode; run-time constants vs. JS/Java source strings",
-   text="All strings up to length 3 over 16 representatives plus length 4 over 9 classes (quick) / length 5 (thorough), boundary lengths around every limit, random Unicode, through all 9 validators and the predicate (soundness and completeness); rule strings compared with the JS and Java sources.",
+   text="All strings up to length 3 over 16 representatives plus length 4 over 9 classes (quick) / length 5 (thorough), boundary lengths around every limit with 1- to 4-byte characters, long mixed-width strings, random Unicode, through all 9 validators and the predicate (soundness and completeness); rule strings compared with the JS and Java sources.",
    note="'identical to JS and Java' is decided on the rule strings as artefacts; JS/Java are not executed (cannot be built offline).", ref="5/C18"),
- "C19": dict(cat="translation_validation", tech="artefact conformance (ATN arrays, vocabularies, listener method set) + Earley recogniser on the .g4 vs. the real generated parser on generated and grammar-derived texts",
-   text="Serialized ATNs of Go/JS/Java/.interp decoded and compared and deserialized; sequences of state and prediction-decision numbers in the three generated parser sources compared; name tables compared with each other, the live recogniser and both .g4 files; every literal of the literal-only lexer rules lexed by the real lexer; for 10^4-10^5 texts incl. one shortest sentence per grammar production: grammar accepts <=> generated parser accepts.",
+ "C19": dict(cat="translation_validation", tech="artefact conformance (ATN arrays, vocabularies, listener method set) + Earley recogniser on the .g4 vs. the real generated parser on generated and grammar-derived texts; parse-tree conformance monitor",
+   text="Serialized ATNs of Go/JS/Java/.interp decoded and compared and deserialized; sequences of state and prediction-decision numbers in the three generated parser sources compared; name tables compared with each other, the live recogniser and both .g4 files; every literal of the literal-only lexer rules lexed by the real lexer; for 10^4-10^5 texts incl. one shortest sentence per grammar production: grammar accepts <=> generated parser accepts, and every rule node of the tree the generated Go parser built is a derivation step of the .g4 (Earley on the tree grammar).",
    note="Trusted: .g4 reader and Earley recogniser (internal/g4); lexer grammar edits of character-class rules that keep all names are out of reach (DESIGN 8).", ref="5/C19"),
  "C01": dict(cat="exploration", tech="round-trip monitor d->M1->D1->M2->D2->M3->D3 on both API paths over generated, corpus and mutated DSL",
    text="Every accepted full-model text among 10^4-10^6 generated layouts, corpus files and accepted token-level mutants is pushed through render/parse three times on the in-memory and the JSON-string path; equality and byte stability are asserted on each.",
    note="Trusted: proto.Equal; reading of 'modulo surrounding/trailing whitespace' in DESIGN 7-a.", ref="5/C01"),
  "C02": dict(cat="exploration", tech="reference-predicate monitor (expressibility + normal form) over random and exhaustively enumerated rewrite trees",
-   text="Success of JSON->DSL compared with an independent expressibility predicate, the error text, and re-parse compared with the normal form, on random whole models and on every rewrite tree up to 6 (quick) / 7 (thorough) nodes.",
+   text="Success of JSON->DSL compared with an independent expressibility predicate, the error text, and re-parse (also of the rendering with source information) compared with the normal form, on random whole models (operators up to 20 operands) and on every rewrite tree up to 6 (quick) / 7 (thorough) nodes.",
    note="Trusted: predicate and normal form in cmd/vcheck/c02.go (written from the statement); domain limited to texts the lexer can carry (DESIGN 7).", ref="5/C02"),
  "C03": dict(cat="exploration", tech="independent renderer + model-as-written oracle; random and exhaustive (odometer) layout enumeration",
    text="From one AST the harness derives the model that was written and grammar-permitted renderings; the parser's result is compared on 10^4-10^5 random layouts and on the complete reduced layout space of tiny ASTs.",
@@ -42,7 +42,7 @@ CHECKS = {
    text="Each generated file set is merged 12-40 times (map orders) and under every permutation of <=4 files; results and ordered error tuples compared.",
    note="Map iteration orders are sampled, not enumerated.", ref="5/C12"),
  "C14": dict(cat="exploration", tech="metamorphic monitor (repeats, JSON re-encodings, type shuffles) + documented-order predicate + comment-strip equality",
-   text="Output bytes compared across repeats, shuffled JSON encodings and type orders; order of types/relations/conditions/parameters checked against the documented rule; source-info variant stripped of comments must equal the plain output and parse to the same model.",
+   text="Output bytes compared across repeats, overlapping calls on one model, shuffled JSON encodings and type orders; order of types/relations/conditions/parameters checked against the documented rule; source-info variant stripped of comments must equal the plain output and parse to the same model.",
    note="Trusted: order predicate written from the documentation; K4 (line break in a file name) recognised by its signature.", ref="5/C14"),
  "C16": dict(cat="exploration", tech="position monitors: bounds on every reported position, exact renderer marks for listener errors, declaration-site sets for merge conflicts (bug-compatible oracle for K2)",
    text="Bounds of every position in every error for 10^4-10^5 rejected inputs; exact position for 5 injection kinds under random layouts; merge-conflict file+line against the set of declaration sites, deviations equal to the naive lookup counted as known finding K2.",
@@ -57,7 +57,7 @@ CHECKS = {
    text="Outcome equality across enumerated start orders, repeated builds, permuted type definitions and commutative operands, plus 16 concurrent builds of one shared model under go test -race compared with the sequential result.",
    note="Race detector sees only interleavings that happened; canonical form names operators by position.", ref="5/C06"),
  "C10": dict(cat="exploration", tech="structural reference-model monitor (simultaneous walk) + input-snapshot monitor around Build",
-   text="Real graph walked simultaneously with the reference structure (nodes, kinds, labels, edge order and kinds, tupleset labels, ordered condition sets) on generated models; model snapshotted before and compared after every Build.",
+   text="Real graph walked simultaneously with the reference structure (nodes, kinds, labels, edge order and kinds, tupleset labels, ordered condition sets, identity of edge endpoints with the nodes held under their labels) on generated models; model snapshotted before and compared after every Build.",
    note="Trusted: reference structure builder; operand de-duplication rules follow the property's anchors.", ref="5/C10"),
  "C11": dict(cat="exploration", tech="reference-model monitor: wildcard lists vs. plain reachability of T:* under enumerated start orders",
    text="Wildcard lists of every node and edge of every accepted build compared as sets (duplicates flagged) with reachability in the reference graph, under repeated builds and enumerated start orders.",
